@@ -184,7 +184,7 @@ def run_impl(cfg, workdir, sampler_hook=None, reuse=None, tag="run"):
         numpy.seterr(all="warn")
     im = m0.copy()
     r.m0_backing = None
-    if cfg.get("m0_dtype") == "int":
+    if cfg.get("m0_dtype") == "int" and all(float(v).is_integer() for v in cfg["m0"]):     # (callers may have replaced m0)
         im = m0.astype(int)
     elif cfg.get("m0_dtype") == "readonly":
         im.setflags(write=False)
